@@ -575,6 +575,24 @@ class VmdkDescText(Suite):
         return {"style": case["style"], "how": case["how"]}
 
 
+class HddSplitTerm(c06.HddSplit):
+    """Parallels disks split over storages (sizes that are no multiple of the stream buffer, reads up to and past the last
+    sector): only termination and bounded memory are judged here; the bytes are C06 / C07 / C10's business."""
+    name = "hdd_split_term"
+
+    def coq_term(self, case):
+        return None
+
+    def judge(self, case, impl_res, coq_val):
+        if impl_res.get("outcome") in ("hang", "crash", "oom"):
+            return [Finding("impl_fault", f"split .hdd ({case['total']} sectors): implementation {impl_res['outcome']}",
+                            "hdd:split:" + impl_res["outcome"])]
+        for r in impl_res.get("reqs", []):
+            if isinstance(r, dict) and r.get("outcome") in ("hang", "oom"):
+                return [Finding("impl_fault", f"split .hdd: a read {r['outcome']}", "hdd:split:read-" + r["outcome"])]
+        return []
+
+
 class HypervMal(c17.MalSuite):
     """C17's malformed Hyper-V files (every structural field corrupted in turn, free slots of size 0, table cycles):
     here only termination and bounded memory are judged; what the decoder returns is C17's business."""
@@ -593,5 +611,5 @@ class HypervMal(c17.MalSuite):
         return core.sha(core.jdump(case).encode())
 
 
-SUITES = {"raw": HypervRaw(), "hyperv_mal": HypervMal(), "vmdk_desc": VmdkDescText(), "bombs": Bombs(), "wild_vdi": WildVdi(), "wild_hds": WildHds(), "wild_vhdx": WildVhdx(), "mutants": Mutants(),
+SUITES = {"raw": HypervRaw(), "hdd_split_term": HddSplitTerm(), "hyperv_mal": HypervMal(), "vmdk_desc": VmdkDescText(), "bombs": Bombs(), "wild_vdi": WildVdi(), "wild_hds": WildHds(), "wild_vhdx": WildVhdx(), "mutants": Mutants(),
           "snapchain": SnapChain()}
